@@ -206,7 +206,24 @@ def coll_unit():
                 externals=_time_externals(), abstract=abstract)
 
 
-UNITS = {'SrcTime': time_unit, 'SrcBase': base_unit, 'SrcMulti': multi_unit, 'SrcColl': coll_unit}
+# ----------------------------------------------------------------------------------------------------------
+# geostructures/structures.py :: GeoPolygon._point_in_polygon — the even-odd ray rule   (C01)
+#
+# a coordinate is the exact pair `GV.Pt = Rat × Rat` (floats are exchanged as their exact rational values; the theorems
+# are about exact arithmetic, §3 of DESIGN.md); the loop becomes a structural recursion over the edge list.
+
+def pip_unit():
+    src = py2lean.Source(_repo('structures.py'))
+    insts = [
+        Inst('GeoPolygon._point_in_polygon', 'pointInPolygon',
+             [('coord', 'Pt'), ('polygon', 'List Pt'), ('include_boundary', 'Bool')], 'Except Bool'),
+    ]
+    return Unit('SrcPip', src, 'GV.Src.Pip', ['GeoVerif.Model.Pip', 'GeoVerif.Model.PyPrelude'], insts, {},
+                attr_types={('Pt', 'longitude'): ('{}.1', 'R'), ('Pt', 'latitude'): ('{}.2', 'R')},
+                hooks={'isinstance': lambda typ: None})
+
+
+UNITS = {'SrcTime': time_unit, 'SrcBase': base_unit, 'SrcMulti': multi_unit, 'SrcColl': coll_unit, 'SrcPip': pip_unit}
 
 
 def render(name):
